@@ -3027,13 +3027,22 @@ def conforms_to(cls, f):
     if cls == "loopConstraintCycle":
         return bool(f.get("never"))
     if cls == "matchAsNested":
-        # the element constraints were applied to the subject: what is left is Never or some of the subject's own union members
+        # the element constraints were applied to the subject: what is left is Never, some of the subject's own union members,
+        # or the subject narrowed to the class / literal of an element sub-pattern
         def arms(t):
             return [a for u in t[1] for a in arms(u)] if t is not None and t[0] == "union" else [t]
         if f.get("never"):
             return True
         sub = [a for t in (f.get("subj_xterms") or []) for a in arms(t)]
-        return bool(sub) and None not in sub and all(a in sub for t in ts for a in arms(t))
+        cs, lits = f.get("masq_subpatterns") or ([], [])
+
+        def from_sub(a):
+            if a is None:
+                return False
+            if a[0] == "pytyped":
+                return a[1].__name__ in cs
+            return a[0] == "pyknown" and any(type(a[1]) is type(l) and a[1] == l for l in lits)
+        return bool(ts) and None not in sub and all(a in sub or from_sub(a) for t in ts for a in arms(t))
     if cls == "setDisplayOrder":
         # only the positions are wrong: every element belongs to some member of the inferred form
         def members_of(t):
@@ -3127,6 +3136,10 @@ def classify_requests(failures, fn_src_of):
                          (isinstance(ma.pattern, ast.MatchOr) and any(isinstance(x, (ast.MatchSequence, ast.MatchMapping)) for x in ast.walk(ma.pattern)))):
                     sub = any(isinstance(x, (ast.MatchValue, ast.MatchSingleton, ast.MatchClass, ast.MatchOr)) for x in ast.walk(ma.pattern))
                     reqs.append((i, "masq 1 %d" % sub, ["matchAsNested"] if sub else []))
+                    f["masq_subpatterns"] = (
+                        [x.cls.id for x in ast.walk(ma.pattern) if isinstance(x, ast.MatchClass) and isinstance(x.cls, ast.Name)],
+                        [x.value.value for x in ast.walk(ma.pattern) if isinstance(x, ast.MatchValue) and isinstance(x.value, ast.Constant)] +
+                        [x.value for x in ast.walk(ma.pattern) if isinstance(x, ast.MatchSingleton)])
                     break
         facts = composite_facts(fnode, node) if isinstance(node, (ast.Name, ast.Subscript, ast.Attribute)) else None
         if facts is not None and any(facts):
